@@ -5,7 +5,7 @@ Real code driven in-process (no sockets): `dns.parse_domain_name`, `DnsMessage()
 loops `MrpConnection.data_received`, `CompanionConnection.data_received`, `HAPSession.decrypt`,
 `DataStreamChannel.handle_received`, `BaseDataStreamChannel.decode_protobufs`,
 `EventChannel.handle_received`, `HttpConnection.data_received`, `BasicHttpServer.data_received`,
-`airplay.utils._get_flags` / `companion.service_info` (`int(x, 16)`), and — through
+`airplay.utils.update_service_details` (status flags) / `companion.service_info` (`int(x, 16)`), and — through
 `pyatv.scan` with the socket layer replaced (harness/c12.py fakes) — `ReceiveDelegate`,
 `MulticastDnsSdClientProtocol.datagram_received`, `UnicastDnsSdClientProtocol`, `ServiceParser`,
 `BaseScanner.handle_response` / `discover`.
@@ -19,7 +19,7 @@ AST of the function under test) resp. the number of `_parse` frames.
 Calls that hand a network-controlled *string* to C code (regular expressions, `int()`, codecs) cannot be
 bounded by a line budget or a Python signal handler: the per-service discovery pipeline (`handle_response`
 -> protocol handler, `discover` -> device_info extractors + `service_info`, `get_unique_id`) for every TXT
-key the protocol modules read, the string parsers (`_get_flags`, `parse_features`, `lookup_version`,
+key the protocol modules read, the string parsers (status flags via `update_service_details`, `parse_features`, `lookup_version`,
 `lookup_os`, `parse_request`, `parse_response`, IDNA labels) and every whole-scan isolation run are
 therefore executed in a child process (`python -m harness.c05 --child`) under a wall-clock budget that
 grows linearly with the input size; a child that does not answer is killed and that is the observation.
@@ -261,6 +261,17 @@ class Decoders:
         self.t_tlv = None
         # lookup_tag walks the whole tag table per frame (~130 line events); up to recursion-limit frames
         self.t_dmap = T(calls=[dmap_parser._parse.__code__], budget=10 * EVENT_BUDGET)
+        # a loop head that is no longer found in the public function (moved into a helper by a refactoring): the exact
+        # round count is then not observable — outcome classes are still compared, work is bounded by the input size
+        self.uncounted = set()
+        for names, tr in ((("name",), self.t_name), (("dns",), self.t_dns), (("mrp",), self.t_mrp),
+                          (("companion",), self.t_companion), (("hap",), self.t_hap), (("data", "data-real-payload"), self.t_data),
+                          (("event", "event-negative-length", "event-length-value"), self.t_event),
+                          (("pb", "pb-real-protobuf"), self.t_pb), (("http", "http-negative-length", "http-length-value"), self.t_http),
+                          (("server", "server-negative-length", "server-length-value"), self.t_server),
+                          (("raop-control",), self.t_control)):
+            if any(line == -1 for (_, line) in tr.lines):
+                self.uncounted.update(names)
 
     # -- DNS -----------------------------------------------------------------------------------
     def name(self, msg, pos):
@@ -475,11 +486,43 @@ class Decoders:
         return r["status"], r, 1
 
     # -- flags ---------------------------------------------------------------------------------
+    def _flag_service(self, text):
+        from pyatv.const import Protocol
+        from pyatv.core import MutableService
+        return MutableService("id", Protocol.AirPlay, 7000, {"flags": text})
+
+    def flag_masks(self):
+        """Which status-flag bits make `update_service_details` (public seam; the helper that parses the hex string
+        is private and may be renamed) report a password / mandatory pairing: probed on the tree under test."""
+        if getattr(self, "_masks", None) is None:
+            from pyatv.const import PairingRequirement
+            from pyatv.protocols.airplay import utils
+            pw = mand = 0
+            for i in range(64):
+                svc = self._flag_service(hex(1 << i))
+                utils.update_service_details(svc)
+                pw |= (1 << i) if svc.requires_password else 0
+                mand |= (1 << i) if svc.pairing == PairingRequirement.Mandatory else 0
+            self._masks = (pw, mand)
+        return self._masks
+
+    def flags_view(self, answer):
+        """the model's `ok +n` / `ok -n` as what is observable at the seam: (password required, pairing mandatory)"""
+        import re as _re
+        m = _re.fullmatch(r"ok ([+-])(\d+)", answer)
+        if not m:
+            return answer
+        value = int(m.group(2)) * (-1 if m.group(1) == "-" else 1)
+        pw, mand = self.flag_masks()
+        return "ok %d %d" % (1 if value & pw else 0, 1 if value & mand else 0)
+
     def flags(self, text):
+        from pyatv.const import PairingRequirement
         from pyatv.protocols.airplay import utils
-        r = self.t_flags.run(lambda: utils._get_flags({"flags": text}))
+        svc = self._flag_service(text)
+        r = self.t_flags.run(lambda: utils.update_service_details(svc))
         if r["status"] == "ok":
-            return "ok %s%d" % ("-" if r["value"] < 0 else "+", abs(r["value"])), r, len(text)
+            return "ok %d %d" % (1 if svc.requires_password else 0, 1 if svc.pairing == PairingRequirement.Mandatory else 0), r, len(text)
         return "err" if r["status"] == "err:ValueError" else r["status"], r, len(text)
 
 
@@ -507,8 +550,30 @@ class Bench:
             return
         self.rows.setdefault(dec, []).append((case, line, impl, res, iters, valid))
 
-    def finish(self, strip=None):
+    COUNT_FIELD = {"name": -1, "dns": -1, "mrp": -1, "companion": -1, "hap": -1, "data": -1, "http": -1, "raop-control": -1,
+                   "event": 0, "server": 0, "pb": 0}
+
+    @staticmethod
+    def _nbytes(case):
+        text = case[0] if isinstance(case, list) else case
+        return len(text) // 2 if isinstance(text, str) and text != "-" else 0
+
+    def finish(self, strip=None, uncounted=()):
         ctx = self.ctx
+        strip = dict(strip or {})
+        for dec in uncounted:
+            ctx.note("loop-head-not-located:" + dec)
+            if dec in self.rows:
+                self.rows[dec] = [(c_, l_, i_, r_, self._nbytes(c_), v_) for c_, l_, i_, r_, _it, v_ in self.rows[dec]]
+            if dec in self.COUNT_FIELD:
+                k, inner = self.COUNT_FIELD[dec], strip.get(dec, lambda x: x)
+
+                def drop(text, k=k, inner=inner):
+                    toks = text.split(" ")
+                    if len(toks) > 1:
+                        del toks[k]
+                    return inner(" ".join(toks)) if k == -1 else " ".join(toks)
+                strip[dec] = drop
         for dec, rows in self.rows.items():
             # calibration on valid inputs (status ok), else on all terminating ones
             base = [r for r in rows if r[5] and r[3]["status"] == "ok"] or [r for r in rows if ordinary(r[3]["status"])]
@@ -928,7 +993,7 @@ def run_raop_datagrams(ctx, D, bench):
     for data in rows:
         impl, r, it = D.control(data)
         bench.add("raop-control", hx(data), "control " + hx(data), " ".join(impl.split(" ")[:2]), r, it)
-        if r["status"] == "ok" and len(data) == 8 and data[1] & 0x7F == 0x55:
+        if r["status"] == "ok" and len(data) == 8 and data[1] & 0x7F == 0x55 and "raop-control" not in D.uncounted:
             want = struct.unpack(">H", data[6:8])[0]
             if it != want:
                 ctx.fail("raop-control:wrong-number-of-rounds", {"decoder": "raop-control", "input": hx(data)}, it,
@@ -1126,7 +1191,9 @@ def child_fn(name, text):
     from pyatv.protocols.airplay import utils
     from pyatv.support import device_info, http
     if name == "flags":
-        return utils._get_flags({"flags": text})
+        from pyatv.const import Protocol
+        from pyatv.core import MutableService
+        return utils.update_service_details(MutableService("id", Protocol.AirPlay, 7000, {"flags": text}))
     if name == "features":
         return int(utils.parse_features(text))
     if name == "version":
@@ -1728,8 +1795,9 @@ def run(ctx):
         run_raop_datagrams(ctx, D, bench)
         run_opack(ctx, D, bench)
         run_dmap(ctx, D, bench)
-        strip = {"companion": lambda s: " ".join(s.split(" ")[1:])}      # frames are not observable for Companion
-        bench.finish(strip)
+        strip = {"companion": lambda s: " ".join(s.split(" ")[1:]),      # frames are not observable for Companion
+                 "flags": D.flags_view}                                   # the seam shows two bits of the parsed value
+        bench.finish(strip, D.uncounted)
         run_pinned_witnesses(ctx)
     except Hang:
         ctx.fail("watchdog:decoder-run-exceeded-wall-clock", {"watchdog_s": WATCHDOG_S}, "Hang", "all decoder runs finish",
